@@ -279,7 +279,8 @@ def run_job(prop, job, tier, verbose=False, loopless=False):
         res["detail"] = "solver error (out of memory?): " + " | ".join(msgs)[-300:]
         return res
     if not reach_ok:
-        res["status"] = "vacuous"; res["detail"] = "VC_REACH witness not reachable: every path is cut before the end of the harness"
+        res["status"] = "vacuous"; res["detail"] = "VC_REACH witness not reachable: every path is cut before the end of the harness" + (
+            " (failed: %s)" % ", ".join(i["obligation"] for i in (res["infra_failed"] + res["failed"])[:4]) if (res["infra_failed"] or res["failed"]) else "")
         return res
     if job.loop_contracts and not loopless and res["loop_obligations"] < job.min_loops:
         res["status"] = "error"; res["detail"] = "expected >= %d loop step/variant obligations, saw %d (loop contract dropped?)" % (job.min_loops, res["loop_obligations"])
